@@ -88,7 +88,7 @@ func c12Scenarios(thorough bool) []*c12Scenario {
 		{Name: "insert[11,12]||scan-read[>=10]", Clients: [][]*Stmt{
 			{{Kind: "insert", Table: "t", Cols: []string{"k", "v"}, Rows: [][]any{{k(11), "n1"}, {k(12), "n2"}}}},
 			{{Kind: "select", Table: "t", Cols: []string{"k", "v"}, Where: ForceScan(Leaf{"k", ">=", k(10)})}}}},
-		{Name: "insert[11,12]||index-read[>=10]", Clients: [][]*Stmt{
+		{Name: "insert[11,12]||index-read[>=10]", Bound: 2, Free: 2, Clients: [][]*Stmt{
 			{{Kind: "insert", Table: "t", Cols: []string{"k", "v"}, Rows: [][]any{{k(11), "n1"}, {k(12), "n2"}}}},
 			{{Kind: "select", Table: "t", Cols: []string{"k", "v"}, Where: Leaf{"k", ">=", k(10)}}}}},
 		// the heap grows: both inserts find the last page full
